@@ -19,6 +19,12 @@ RULE = ("gain vectors of 1..12 entries (log-uniform over 12 decades; classes "
 RULE += (" Added after the white-box review: total power and noise "
          "optionally x 1e-30..1e20, the scalars optionally as Python ints, "
          "gain vectors of 33..2048 entries in one case of thirty ")
+RULE += (" Added after the second white-box review: nearly equal gains "
+         "(relative differences 1e-15..1e-3, one or two clusters), gains "
+         "spanning up to 18 orders of magnitude, a total power 1e-6..1e-12 "
+         "times smaller (water level up to 1e15 x the power); 'non-"
+         "negative' and 'sums to the total power' are judged relative to "
+         "the power (1e-12 n Pt + 16 n eps |mu|) instead of 1e-9 (Pt + mu). ")
 
 LEVEL_TEXT = ("Generated-input search (Hypothesis, seeded, sharded) over gain "
               "vectors, powers, noise and symbol energies against four "
@@ -49,7 +55,20 @@ def _gains():
                            lambda t: [t[0], t[1]] + t[2])
     narrow = st.tuples(g, st.lists(fl(1.0, 3.0), min_size=2, max_size=12)) \
         .map(lambda t: [t[0] * x for x in t[1]])
-    return st.one_of(generic, narrow, equal, dup, spread)
+    # nearly equal gains (relative differences 1e-15 .. 1e-3 around a
+    # common value): the boundary of the "equal gains" class
+    near = st.tuples(g, st.lists(st.tuples(st.sampled_from([-1, 1]),
+                                           fl(-15.0, -3.0)),
+                                 min_size=2, max_size=12)) \
+        .map(lambda t: [t[0] * (1.0 + sg * 10.0 ** e) for sg, e in t[1]])
+    # two such clusters
+    near2 = st.tuples(near, near).map(lambda t: (t[0] + t[1])[:12])
+    # gains spanning up to 18 orders of magnitude
+    spread2 = st.tuples(loguniform(-9, -6), loguniform(6, 9),
+                        st.lists(g, max_size=4)).map(
+                            lambda t: [t[0], t[1]] + t[2])
+    return st.one_of(generic, narrow, equal, dup, spread, near, near2,
+                     spread2)
 
 
 def _strategy(tier):
@@ -62,6 +81,9 @@ def _strategy(tier):
         gdtype=st.sampled_from(["float64", "float64", "float64", "int64",
                                 "int32"]),
         Pt=loguniform(-3, 3),
+        # a total power far below the noise floors (water level up to 1e15
+        # times the power)
+        pt_exp=st.sampled_from([0, 0, 0, 0, 0, -6, -9, -12]),
         N0=loguniform(-3, 3),
         Es=es,
         # common absolute scale of gains and noise (the floors N0/(Es g)
@@ -130,6 +152,10 @@ def check(case, ctx):
             -3.0, 3.0, int(ln))).tolist()
         ctx.label("long_vector")
     Pt, N0, Es = float(case["Pt"]), float(case["N0"]), float(case["Es"])
+    pte = int(case.get("pt_exp", 0) or 0)
+    if pte:
+        Pt = Pt * 10.0 ** pte
+        ctx.label("Pt_x_1e%d" % pte)
     pe = int(case.get("pscale_exp", 0))
     if pe:
         Pt, N0 = Pt * 10.0 ** pe, N0 * 10.0 ** pe
@@ -199,9 +225,19 @@ def check(case, ctx):
         ctx.label("tied_gains")
     ctx.nontrivial((n >= 2 and n_off >= 1) or Es != 1.0)
 
-    ctx.close("nonneg", max(0.0, -float(p.min())), 1e-12 * scale,
+    # "non-negative" and "sums to the total power" are statements about
+    # the power: tolerance relative to Pt, plus the rounding that "p = mu -
+    # floor" itself carries (a few eps*mu per channel) - not 1e-9*mu, which
+    # would accept any allocation once the level is 1e9 times the power
+    EPS = 2.220446049250313e-16
+    ctx.close("nonneg", max(0.0, -float(p.min())),
+              1e-12 * Pt + 16 * EPS * abs(mu),
               "min p = %r" % float(p.min()), tags)
-    ctx.close("sum_eq_Pt", abs(math.fsum(p) - Pt), tol, "", tags)
+    ctx.close("sum_eq_Pt", abs(math.fsum(p) - Pt),
+              1e-12 * n * Pt + 16 * n * EPS * abs(mu),
+              "sum p = %r, Pt = %r, mu = %r" % (math.fsum(p), Pt, mu), tags)
+    if abs(mu) > 1e9 * Pt:
+        ctx.label("level_above_1e9_x_power")
     # level equation for the RETURNED water level
     lev = max(abs(pi - max(0.0, mu - ai)) for pi, ai in zip(p, a))
     ctx.close("level_equation", lev, tol,
